@@ -85,6 +85,23 @@ func newC18Variant(template, method string, mark int) *c18World {
 	return w
 }
 
+// c18HeaderSets are extra request headers tried on every operation.
+var c18HeaderSets = [][]string{
+	{"Accept: */*"},
+	{"Accept: application/json"},
+	{"Accept: application/json, text/plain, */*"},
+	{"Accept: text/html,application/xhtml+xml;q=0.9"},
+	{"Accept: text/plain"},
+	{"X-HTTP-Method-Override: POST"},
+	{"X-HTTP-Method-Override: GET"},
+	{"X-Forwarded-For: 127.0.0.1", "X-Real-IP: 127.0.0.1"},
+	{"Authorization: Bearer admin"},
+	{"Origin: http://localhost", "Access-Control-Request-Method: POST"},
+	{"Connection: Upgrade", "Upgrade: websocket"},
+	{"X-Read-Only: false", "X-Enable-Write-Operations: true"},
+	{"Accept: application/json", "X-Requested-With: XMLHttpRequest"},
+}
+
 var c18Methods = []string{"GET", "POST", "PUT", "DELETE", "PATCH", "HEAD", "OPTIONS"}
 
 type c18Body struct{ name, body, ctype string }
@@ -140,6 +157,18 @@ func (w *c18World) requests(thorough bool, yield func(r apix.Request, p apix.Pat
 	var canon []string
 	for _, t := range w.templates {
 		canon = append(canon, apix.Prefix+apix.Canonical(w.spec, t))
+	}
+	// request headers: the decision must not depend on them either. Every header
+	// set x every method x every body on the canonical spelling of every template.
+	for ti, target := range canon {
+		for _, hs := range c18HeaderSets {
+			for _, m := range c18Methods {
+				for _, b := range bodies {
+					yield(apix.Request{Method: m, Target: target, Body: b.body, CType: b.ctype, Headers: hs},
+						apix.Path{Template: w.templates[ti], How: fmt.Sprintf("canonical, headers %q", hs), Target: target}, b.name)
+				}
+			}
+		}
 	}
 	for _, a := range canon {
 		for _, b := range canon {
